@@ -94,6 +94,11 @@ func (s *syncer) AddChunk(chunk *chunk) (bool, error) {
 	if s.chunks == nil {
 		return false, errors.New("no state sync in progress")
 	}
+	if chunk != nil && s.snapshots.IsPeerRejected(chunk.Sender) {
+		s.logger.Debug("Ignoring chunk from rejected sender", "height", chunk.Height, "format", chunk.Format,
+			"chunk", chunk.Index, "peer", chunk.Sender)
+		return false, nil
+	}
 	added, err := s.chunks.Add(chunk)
 	if err != nil {
 		return false, err
